@@ -478,6 +478,7 @@ pub fn run(ctx: &Ctx) -> Report {
      (acyclic, unbroken, also as the root), equal sizes, names where component-wise and string order differ (a/b vs a.b, a b, a-b); all 8 flag combinations, 0-3 globs with `!`, 0-3 sort specs; \
      observable: info.files[].path order and exit status; non-trivial = directory root with >= 2 entries and a glob, sort spec or symlink; distinct by case hash",
   );
+  report.rule.push_str("; trees on a memory file system (listing order = creation order); ignore files inside the tree and a per-user ignore file outside it without --ignore; hard links; links sharing a target or pointing at a sibling; `.DS_Store`, names beginning with `!`, names with commas; empty globs, `!!a`, alternatives `{a,b}`, repeated globs (A,B,A); the root spelled `root/` and `root/.`; a file whose name is not UTF-8 (without globs: the command must fail)");
   report.correspondences.push("C06.files: info.files order written by `imdl torrent create` = Imdlv.Walker.files".into());
   let cases: Vec<Case> = match super::replay_cases(ctx) {
     Some(rc) => rc.iter().filter_map(Case::from_json).collect(),
